@@ -1,4 +1,5 @@
 import Mieru.Model.Arq
+import Mieru.Model.Retx
 /-!
 # UDP transport with flow control, bounded buffers and the retransmission budget
 (pkg/protocol/session.go, packet transport)
@@ -150,5 +151,71 @@ def recvOp (P : Params) (s : St) : RecvOp → St
   | .read => if s.read < s.delivered.length then { s with read := s.read + 1 } else s
 
 def recvObs (P : Params) (s : St) : Nat × Nat × Nat × Nat := (s.nextRecv, s.recvBuf.length, qlen s, rwin P s)
+
+/-! ## The sender alone, one output round at a time, as the harness drives it against the real
+`Session.runOutputOncePacket` / `inputAck` (the clock is an input: which segments have timed out) -/
+
+/-- one entry of sendBuf: sequence number and the retransmission bookkeeping of `Mieru.Retx` -/
+structure SSeg where
+  seq : Nat
+  r : Retx.Seg
+deriving DecidableEq, Repr
+
+structure Snd where
+  buf : List SSeg       -- sendBuf, ascending
+  queue : List Nat      -- sendQueue, ascending
+  rwnd : Nat            -- remoteWindowSize
+  dead : Bool
+deriving DecidableEq, Repr
+
+/-- the retransmission scan (`sendBuf.Ascend`): stop at the first segment that has used up its budget
+    (the session is closed), otherwise apply `Retx.step (.scan timedOut)` to every segment in order.
+    Returns the new buffer, the number of retransmissions and whether the session was abandoned. -/
+def scan (limit earlyRetx earlyLimit : Nat) (expired : Nat → Bool) : List SSeg → List SSeg × Nat × Bool
+  | [] => ([], 0, false)
+  | g :: rest =>
+    if limit ≤ g.r.txCount then (g :: rest, 0, true)
+    else
+      let r' := Retx.step earlyRetx earlyLimit g.r (.scan (expired g.seq))
+      let (b, c, d) := scan limit earlyRetx earlyLimit expired rest
+      (⟨g.seq, r'⟩ :: b, c + (r'.txCount - g.r.txCount), d)
+
+/-- `sendWindowSize()` -/
+def sendWindow (cwnd bufLen rwnd : Nat) : Nat := min (cwnd - bufLen) rwnd
+
+/-- the loop that moves segments from sendQueue to sendBuf: while `sendBuf.Remaining() > 1`, the queue is
+    not empty and `totalTransmissionCount < sendWindowSize()` -/
+def sendLoop (cap cwnd rwnd : Nat) : Nat → List SSeg → List Nat → Nat → List SSeg × List Nat × Nat
+  | 0, buf, q, total => (buf, q, total)
+  | fuel+1, buf, q, total =>
+    match q with
+    | [] => (buf, q, total)
+    | k :: q' =>
+      if buf.length + 1 < cap ∧ total < sendWindow cwnd buf.length rwnd then
+        sendLoop cap cwnd rwnd fuel (buf ++ [⟨k, { txCount := 1 }⟩]) q' (total + 1)
+      else (buf, q, total)
+
+/-- one `runOutputOncePacket` (without the ack it may append): `cwnd` is the congestion window after
+    the congestion event of this round, `expired` tells which segments' timers have run out.
+    Returns the new state and the number of datagrams carrying numbered segments. -/
+def round (P : Params) (earlyRetx earlyLimit cwnd : Nat) (expired : Nat → Bool) (s : Snd) : Snd × Nat :=
+  if s.dead then (s, 0) else
+  let (b, c, d) := scan P.limit earlyRetx earlyLimit expired s.buf
+  if d then ({ s with buf := [], queue := [], dead := true }, c)
+  else
+    let (b', q', total) := sendLoop P.cap cwnd s.rwnd (s.queue.length + 1) b s.queue c
+    ({ s with buf := b', queue := q' }, total)
+
+/-- `inputAck`: discard `seq < unAckSeq`, store the advertised window — for EVERY ack — and count a
+    duplicate ack on the segment numbered `unAckSeq` -/
+def sndAck (s : Snd) (una wnd : Nat) : Snd :=
+  if s.dead then s else
+  { s with buf := (s.buf.dropWhile (fun g => g.seq < una)).map
+                    (fun g => if g.seq = una then ⟨g.seq, Retx.step 0 0 g.r .dupAck⟩ else g),
+           rwnd := wnd }
+
+/-- the ack half of `inputData`: discard and store the window, no duplicate-ack counting -/
+def sndDataAck (s : Snd) (una wnd : Nat) : Snd :=
+  if s.dead then s else { s with buf := s.buf.dropWhile (fun g => g.seq < una), rwnd := wnd }
 
 end Mieru.Flow
